@@ -67,6 +67,9 @@ func kfBar(args []KeyBuilderStage) (KeyBuilderStage, error) {
 	if !maxLenOk {
 		return stageArgError(ErrNum, 2)
 	}
+	if maxLen > math.MaxInt32 { // the block count (length * parts per block) must not overflow
+		return stageArgError(ErrValue, 2)
+	}
 
 	scaler := termscaler.ScalerLinear
 	if len(args) >= 4 {
